@@ -192,4 +192,85 @@ def sysOutput (sys : Sys) (a : Nat × Op) : List Entry := output (sys a.1) a.2
 
 def sysRun (sys : Sys) (aops : List (Nat × Op)) : Sys := aops.foldl sysStep sys
 
+
+/-! ### which recorder a call reaches: `with_recorder` under `with_local_recorder` scopes and a global recorder
+
+`metrics/src/recorder/mod.rs`.  `LOCAL_RECORDER` is a thread-local `Cell<Option<NonNull<dyn Recorder>>>`;
+`LocalRecorderGuard::new` replaces it and remembers what was there (`prev_recorder`); `Drop for
+LocalRecorderGuard` puts `prev_recorder` back — the destructor runs when the closure of `with_local_recorder`
+returns AND when a panic unwinds through it (the flag of `SOp.exit` is therefore not looked at: the model
+follows the code).  `with_recorder` (all macros go through it): local, else global, else the no-op recorder.
+`DebuggingRecorder::install` = `set_global_recorder(self)`: the first installation wins. -/
+
+abbrev Tid := Nat
+abbrev Rid := Nat
+
+/-- function update -/
+def upd {α : Type} (f : Nat → α) (t : Nat) (v : α) : Nat → α := fun x => if x = t then v else f x
+
+structure Scopes where
+  /-- `LOCAL_RECORDER` of each thread -/
+  loc : Tid → Option Rid := fun _ => none
+  /-- `prev_recorder` of the guards owned by the running `with_local_recorder` frames (and of guards of
+      `set_default_local_recorder` dropped in LIFO order) of each thread, innermost first -/
+  frames : Tid → List (Option Rid) := fun _ => []
+  /-- `GLOBAL_RECORDER` -/
+  global : Option Rid := none
+
+/-- `with_recorder`: the thread's local recorder, else the global one, else `none` = `NOOP_RECORDER` -/
+def target (sc : Scopes) (t : Tid) : Option Rid :=
+  match sc.loc t with
+  | some r => some r
+  | none => sc.global
+
+inductive SOp
+  /-- `with_local_recorder(&rec_r, || {`  /  `let g = set_default_local_recorder(&rec_r)` -/
+  | enter (r : Rid)
+  /-- `})` / `drop(g)`: by return (`false`) or by a panic that unwinds through the frame and is caught further
+      up on the same thread (`true`) -/
+  | exit (unwinding : Bool)
+  /-- a call that goes through `with_recorder` (every macro does): it reaches whatever `target` finds -/
+  | cur (op : Op)
+  /-- a call on the recorder value itself, through a handle obtained earlier, or through its `Snapshotter` -/
+  | direct (r : Rid) (op : Op)
+  /-- `rec_r.install()` (`set_global_recorder`) -/
+  | install (r : Rid)
+  deriving Repr
+
+structure SSt where
+  sys : Sys := sysInit
+  sc : Scopes := {}
+
+def sInit : SSt := {}
+
+/-- `LocalRecorderGuard::new` -/
+def scEnter (sc : Scopes) (t : Tid) (r : Rid) : Scopes :=
+  { sc with loc := upd sc.loc t (some r), frames := upd sc.frames t (sc.loc t :: sc.frames t) }
+
+/-- `Drop for LocalRecorderGuard` of the innermost frame (no frame: nothing to drop) -/
+def scExit (sc : Scopes) (t : Tid) : Scopes :=
+  match sc.frames t with
+  | [] => sc
+  | p :: rest => { sc with loc := upd sc.loc t p, frames := upd sc.frames t rest }
+
+/-- `set_global_recorder`: only the first call installs -/
+def scInstall (sc : Scopes) (r : Rid) : Scopes :=
+  match sc.global with
+  | none => { sc with global := some r }
+  | some _ => sc
+
+/-- one call made by thread `t` -/
+def sStep (s : SSt) (a : Tid × SOp) : SSt :=
+  match a.2 with
+  | .enter r => { s with sc := scEnter s.sc a.1 r }
+  | .exit _ => { s with sc := scExit s.sc a.1 }
+  | .cur op =>
+    match target s.sc a.1 with
+    | some r => { s with sys := sysStep s.sys (r, op) }
+    | none => s
+  | .direct r op => { s with sys := sysStep s.sys (r, op) }
+  | .install r => { s with sc := scInstall s.sc r }
+
+def sRun (s : SSt) (prog : List (Tid × SOp)) : SSt := prog.foldl sStep s
+
 end MetricsVerif.Debugging
